@@ -3,5 +3,6 @@ EXTENDS SpanGuard
 \* clock scripts <<reading at start, reading at completion>>, 0 = the clock has no reading
 \* forwards, backwards, standing still, none at start, none at completion, none at all
 MC_ScriptsQuick == {<<3, 5>>, <<5, 3>>, <<0, 5>>, <<5, 0>>}
+MC_ScriptsTyped == {<<3, 5>>, <<5, 3>>}
 MC_ScriptsThorough == {<<3, 5>>, <<5, 3>>, <<4, 4>>, <<0, 5>>, <<5, 0>>, <<0, 0>>}
 =============================================================================
